@@ -154,7 +154,18 @@ pub fn run(plans: &[Plan], seed: u64, out: &mut dyn Write) -> Vec<serde_json::Va
                         tos: if rng.random_bool(0.7) { Some(TypeOfService(rng.random())) } else { None },
                         expected_udp_checksum: if plan.nat { Some(Checksum(1000)) } else { None },
                         actual_udp_checksum: if plan.nat { Some(Checksum(nat_ck)) } else { None },
-                        extensions: None,
+                        // a hop may answer with extensions in one round and without in the next
+                        extensions: match rng.random_range(0..4) {
+                            0 => Some(trippy_core::Extensions {
+                                extensions: vec![trippy_core::Extension::Mpls(trippy_core::MplsLabelStack {
+                                    members: (0..rng.random_range(1..3))
+                                        .map(|_| trippy_core::MplsLabelStackMember { label: rng.random_range(0..1 << 20), exp: rng.random_range(0..8), bos: 1, ttl: rng.random() })
+                                        .collect(),
+                                })],
+                            }),
+                            1 => Some(trippy_core::Extensions { extensions: vec![] }),
+                            _ => None,
+                        },
                     }));
                 }
             }
